@@ -408,6 +408,11 @@ def cmd_driver(repo, shared_p, out):
             ref = f"Some(diff::<{rust_path(k)}, {ref_path(sh['shared'][k])}>)"
         o.append(f"    TypeEntry {{ path: \"{k}\", run: check::<{rust_path(k)}>, diff: ref_or_none!({ref}) }},")
     o.append("] }")
+    # enumerations: (value -> protobuf name) tables observed at run time
+    o.append("pub fn all_enums() -> Vec<(&'static str, Vec<(i32, &'static str)>)> { vec![")
+    for k in sorted(s["enumerations"]):
+        o.append(f"    (\"{k}\", (-2..=300).filter_map(|i| <{rust_path(k)} as TryFrom<i32>>::try_from(i).ok().map(|e| (i, e.as_str_name()))).collect()),")
+    o.append("] }")
     # registered type urls
     o.append("pub fn all_urls() -> Vec<UrlEntry> { vec![")
     for tp, url in sorted(s["type_urls"].items()):
